@@ -1523,6 +1523,10 @@ def replay_vector(model, obligation, designator, version, kind, scale, border, c
     probs = RV.check_modules([list(r) for r in qr.matrix], vec, scale, b, dark=dark, light=light)
     if o.get('omitsize'):
         probs = [p for p in probs if 'page' not in p.lower() or 'cover' in p.lower()]
+    if kind == 'tex':
+        want_unit = o.get('unit') or 'pt'
+        if vec.info.get('unit') != want_unit or vec.info.get('units'):
+            probs.append('coordinates use unit %r (%r), requested %r' % (vec.info.get('unit'), vec.info.get('units'), want_unit))
     return dict(confirmed=bool(probs), call=call, detail='; '.join(probs[:3]) or 'document paints exactly the dark modules')
 
 
@@ -1824,6 +1828,32 @@ def replay_colour_values(model, obligation):
             got = float(m.group(1)) if m else (1.0 if 'stroke="#010203"' in doc else None)
             if got is None or abs(got - a / 255.0) > 0.005:
                 probs.append('save(kind="svg", dark=%r%s): opacity %r in the document, requested %d/255 = %.3f' % (dark, '' if svgversion is None else ', svgversion=2.0', got, a, a / 255.0))
+    # colour tuples with every pattern of equal / unequal hexadecimal digits: the colour named in the SVG document is the requested one
+    from . import readers_vector as RV
+    pats = (0x00, 0x0a, 0xa0, 0xaa, 0x11, 0x1a, 0xa1, 0xab, 0xff, 0xd2, 0xb4, 0x8c)
+    for r_ in pats:
+        for g_ in pats:
+            for b_ in pats:
+                out = io.BytesIO()
+                try:
+                    q.save(out, kind='svg', dark=(r_, g_, b_))
+                    m = re.search(r'stroke="([^"]+)"', out.getvalue().decode('utf-8'))
+                    if not m or tuple(RV.parse_color(m.group(1)))[:3] != (r_, g_, b_):
+                        probs.append('save(kind="svg", dark=%r): stroke %r' % ((r_, g_, b_), m.group(1) if m else None))
+                except Exception as ex:
+                    probs.append('save(kind="svg", dark=%r) raised %r' % ((r_, g_, b_), ex))
+    for k in range(0, 101, 5):
+        f = k / 100.0
+        out = io.BytesIO()
+        try:
+            q.save(out, kind='svg', dark=(1, 2, 3, f))
+            doc = out.getvalue().decode('utf-8')
+            m = re.search(r'stroke-opacity="([0-9.]+)"', doc)
+            got = float(m.group(1)) if m else (1.0 if 'stroke="#010203"' in doc else None)
+            if got is None or abs(got - f) > 0.005:
+                probs.append('save(kind="svg", dark=(1, 2, 3, %r)): opacity %r in the document' % (f, got))
+        except Exception as ex:
+            probs.append('save(kind="svg", dark=(1, 2, 3, %r)) raised %r' % (f, ex))
     m_ = model if isinstance(model, dict) else {}
     if all(k in m_ for k in 'rgb'):
         from segno import writers
